@@ -290,6 +290,9 @@ class CFG:
 def refine(facts, expr, polarity, atom_of):
     """Worlds (list of dicts) after taking the branch ``expr == polarity``."""
     a = atom_of(expr)
+    if isinstance(a, tuple) and len(a) == 2 and a[0] == "~":
+        a = a[1]
+        polarity = not polarity
     if a is not None:
         if a in facts and facts[a] != polarity:
             return []
